@@ -1188,9 +1188,17 @@ func (c *fctx) traceArg(a ast.Expr) (code string) {
 	}
 	// Do not let a nested opaque call allocate parameters from here.
 	savedN, savedO, savedP := c.nOpaque, len(c.opaque), c.partial
+	savedV, savedM := map[string]string{}, map[ast.Expr]string{}
+	for k, v := range c.opaqueVals {
+		savedV[k] = v
+	}
+	for k, v := range c.opaqueNodes {
+		savedM[k] = v
+	}
 	e := c.expr(a)
 	if e.partial || strings.Contains(e.code, "«call:") || c.nOpaque != savedN {
 		c.nOpaque, c.opaque, c.partial = savedN, c.opaque[:savedO], savedP
+		c.opaqueVals, c.opaqueNodes = savedV, savedM // forget the names memoized for the dropped parameters
 		return "\"_\""
 	}
 	if lt == "String" {
